@@ -281,3 +281,66 @@ pub fn record_samples(output: &str) {
     }
     out.finish();
 }
+
+
+/// Histories for Trace_Session: several live constraint objects, random operation sequences.
+pub fn record_session(output: &str) {
+    quiet_panics();
+    let mut out = Out::create(output);
+    let mut r = rng(77);
+    let n_ops = if thorough() { 60_000 } else { 6_000 };
+    let bound = N_AU;
+    let mut objs: Vec<(Constraints, usize)> = Vec::new();
+    let draw = |r: &mut rand::rngs::StdRng| -> ([i64; 6], [i64; 6]) {
+        let mut f = [0i64; 6];
+        let mut t = [0i64; 6];
+        for j in 0..6 { let (a, b, _) = draw_range(r, bound); f[j] = a; t[j] = b; }
+        (f, t)
+    };
+    for k in 0..n_ops {
+        let op = if objs.len() < 3 { 0 } else { r.gen_range(0..10) };
+        match op {
+            0 => {
+                let (f, t) = draw(&mut r);
+                let w16 = [0, 4, 8, 16][r.gen_range(0..4)];
+                let id = objs.len() + 1;
+                let ctor = CTORS[k % 2];
+                let fd: [f64; 6] = std::array::from_fn(|i| f[i] as f64 / 1e4);
+                let td: [f64; 6] = std::array::from_fn(|i| t[i] as f64 / 1e4);
+                let c = if ctor == "new" { Constraints::new(rad6(&f), rad6(&t), w16 as f64 / 16.0) } else {
+                    Constraints::from_degrees([fd[0]..=td[0], fd[1]..=td[1], fd[2]..=td[2], fd[3]..=td[3], fd[4]..=td[4], fd[5]..=td[5]], w16 as f64 / 16.0) };
+                if objs.len() >= 12 { let slot = r.gen_range(0..objs.len()); let old = objs[slot].1; objs[slot] = (c, old); out.put(json!({"ev": "new", "id": old, "from": f, "to": t, "w16": w16})); }
+                else { objs.push((c, id)); out.put(json!({"ev": "new", "id": id, "from": f, "to": t, "w16": w16})); }
+            }
+            1 | 2 => {
+                let (f, t) = draw(&mut r);
+                let i = r.gen_range(0..objs.len());
+                objs[i].0.update_range(rad6(&f), rad6(&t));
+                out.put(json!({"ev": "update", "id": objs[i].1, "from": f, "to": t}));
+            }
+            3 => {
+                let i = r.gen_range(0..objs.len());
+                let c = &objs[i].0;
+                out.put(json!({"ev": "observe", "id": objs[i].1, "from": au6(&c.from), "to": au6(&c.to), "w16": (c.sorting_weight * 16.0).round() as i64, "centre_acc": c.compliant(&c.centers)}));
+            }
+            4 | 5 => {
+                let i = r.gen_range(0..objs.len());
+                let c = objs[i].0;
+                match guarded(|| c.random_angles()) {
+                    Some(q) => out.put(json!({"ev": "sample", "id": objs[i].1, "a": au6(&q), "outcome": "ok"})),
+                    None => out.put(json!({"ev": "sample", "id": objs[i].1, "a": [0, 0, 0, 0, 0, 0], "outcome": "panic"})),
+                }
+            }
+            _ => {
+                let i = r.gen_range(0..objs.len());
+                let c = &objs[i].0;
+                let f = au6(&c.from);
+                let t = au6(&c.to);
+                let mut a = [0i64; 6];
+                for j in 0..6 { a[j] = if r.gen_bool(0.25) { draw_angle(&mut r, f[j], t[j], 2 * N_AU) } else { f[j] + arc_len(f[j], t[j]) / 2 }; }
+                out.put(json!({"ev": "compliant", "id": objs[i].1, "a": a, "acc": c.compliant(&rad6(&a))}));
+            }
+        }
+    }
+    out.finish();
+}
